@@ -219,10 +219,15 @@ def build_ops(seed, tier, d, drv):
     for j in range(2 if tier == "quick" else 8):
         ndeps = 3 + j % 3
         def leaf(t):
-            return {"SUIT_Envelope_Tagged": {
+            e_ = {"SUIT_Envelope_Tagged": {
                 "suit-authentication-wrapper": {"SuitDigest": {"suit-digest-algorithm-id": "cose-alg-sha-256"}},
                 "suit-manifest": {"suit-manifest-version": 1, "suit-manifest-sequence-number": t + 1},
                 "suit-integrated-payloads": {f"#img{j}_{t}_{u}": bytes((t * 31 + u * 7 + x) % 256 for x in range(5 + u)).hex() for u in range(1 + t % 2)}}}
+            if t < 100 and t % 2 == 0:
+                # a third level: the middle envelope integrates a dependency envelope of its own (the same middle envelope is met by every rendering
+                # of this hierarchy within one history, C18-q)
+                e_["SUIT_Envelope_Tagged"]["suit-integrated-dependencies"] = {f"#leaf{j}_{t}.suit": leaf(100 + t)}
+            return e_
         names = [f"#dep{j}_{t}.suit" for t in range(ndeps)]
         rng.shuffle(names)
         edesc = {"SUIT_Envelope_Tagged": {
@@ -465,6 +470,7 @@ def run(tier: str, seed: int) -> int:
         reuse.signer_reuse(res, bytes.fromhex(_sc.run_impl_create(_sb(d0), f0)["ok"]), PROP)
         reuse.encryptor_reuse(res, PROP)
         reuse.keygen_reuse(res, PROP)
+        renderings_agree(res)
         # one process, several signing parties, each with its own copy of the KMS script (same file name, another directory, its own keys): every level
         # is signed by the KMS its own configuration names, whatever was loaded before (C18-p)
         from . import c09
@@ -478,6 +484,43 @@ def run(tier: str, seed: int) -> int:
                 res.spec_failures.append({"job": ["rec"] + list(job), "what": "sign recursive with one KMS script per party: " + p_})
     drv.close()
     return finish(res, st, RULE, NOTE)
+
+
+def renderings_agree(res):
+    """the JSON and the YAML rendering `parse` writes for one envelope describe the same envelope: `create` from either gives the envelope that was
+    parsed - for text with characters a text format may fold, escape or strip (C18-r)"""
+    import tempfile
+    texts = ["plain", "line one\u0085line two", "a\u2028b", "a\u2029b", "tab\there", " lead and trail ", "caf\u00e9 \U0001f680", "\ufeffbom", "two  blanks",
+             "x\x7fy", "dash - colon: hash #", "'single' \"double\"", "back\\slash", "line\nbreak", "trailing break\n", "\u00a0nbsp\u00a0", "\x1b[0m"]
+    with tempfile.TemporaryDirectory(prefix="verif_c18r_") as d:
+        for k, t in enumerate(texts):
+            desc = {"SUIT_Envelope_Tagged": {"suit-authentication-wrapper": {"SuitDigest": {"suit-digest-algorithm-id": "cose-alg-sha-256"}},
+                                             "suit-manifest": {"suit-manifest-version": 1, "suit-manifest-sequence-number": 1, "suit-reference-uri": "u" + t if k % 3 == 0 else "u",
+                                                               "suit-common": {"suit-components": [["M", 1]]},
+                                                               "suit-text": {"suit-digest-algorithm-id": "cose-alg-sha-256"}},
+                                             "suit-text": {"en": {"suit-text-manifest-description": t,
+                                                                  '["M", 1]': {"suit-text-vendor-name": t + "!", "suit-text-model-info": t}}}}}
+            c = suitio.impl_create(desc)
+            res.case(["renderings", k], nontrivial=True)
+            res.count("renderings:json-vs-yaml")
+            if "ok" not in c:
+                continue
+            orig = bytes.fromhex(c["ok"])
+            wd = os.path.join(d, f"t{k}")
+            os.makedirs(wd)
+            open(os.path.join(wd, "in.suit"), "wb").write(orig)
+            got = {}
+            for fmt in ("json", "yaml"):
+                rc, log = common.run_cli(["parse", "--input-file", "in.suit", "--output-file", "out." + fmt, "--output-format", fmt], wd)
+                if rc != 0:
+                    got[fmt] = f"parse failed (exit {rc})"
+                    continue
+                rc, log = common.run_cli(["create", "--input-file", "out." + fmt, "--output-file", "again_" + fmt + ".suit"], wd)
+                got[fmt] = open(os.path.join(wd, "again_" + fmt + ".suit"), "rb").read() if rc == 0 else f"create failed (exit {rc})"
+            if got.get("json") != got.get("yaml") or got.get("json") != orig:
+                res.spec_failures.append({"text": t, "json": "the parsed envelope" if got.get("json") == orig else (got["json"] if isinstance(got.get("json"), str) else "another envelope"),
+                                          "yaml": "the parsed envelope" if got.get("yaml") == orig else (got["yaml"] if isinstance(got.get("yaml"), str) else "another envelope"),
+                                          "what": "the JSON and the YAML rendering of one envelope do not both give back that envelope"})
 
 
 def _short(x):
